@@ -78,6 +78,13 @@ def templates(depth):
     A(("aug_other_attr_from_self", ["o.b += o.a"]))
     A(("aug_subscript_from_self", ["l[0] += o.a"]))
     A(("aug_dict_from_self", ["d['k'] += o.a"]))
+    # a second instance p of the same class (the descriptor, hence the lock and the classification, is shared)
+    A(("read_two_instances", ["x = o.a + p.a"]))
+    A(("write_from_other_instance", ["o.a = p.a"]))
+    A(("write_both_instances", ["o.a = 1; p.a = 2"]))
+    A(("aug_other_instance_other_attr", ["p.b += o.a"]))
+    A(("aug_self_other_attr_of_other_instance", ["o.a += p.b"]))
+    A(("aug_self_from_other_instance", ["o.a += p.a"]))
     A(("two_stmts_read_then_aug_other", ["x = o.a; x += 1"]))
     A(("two_stmts_write_then_read", ["o.a = 1; x = o.a"]))
     A(("two_stmts_aug_then_read", ["o.a += 1; x = o.a"]))
@@ -94,7 +101,7 @@ def templates(depth):
 def generate(dirname, T):
     src = ["# generated by mc.props.c28", "def f(*a, **k):", "  return 1", ""]
     for tid, body in T:
-        src.append("def t_%s(o, x, l, d):" % tid)
+        src.append("def t_%s(o, x, l, d, p):" % tid)
         src.append("  y = 0")
         for line in body:
             src.append("  " + line)
@@ -129,6 +136,9 @@ def run_one(mod, tid):
     o = K()
     o.a = 12
     o.b = 3
+    p = K()
+    p.a = 4
+    p.b = 5
     desc = {n: K.__dict__[n] for n in ("a", "b")}
     for n, dsc in desc.items():
         if not hasattr(dsc, "_lock"):
@@ -137,7 +147,7 @@ def run_one(mod, tid):
             raise ToolingError("lock held before the statement")
     err = None
     try:
-        getattr(mod, "t_" + tid)(o, 7, [5, 6, 7, 8] * 8, {"k": 1})
+        getattr(mod, "t_" + tid)(o, 7, [5, 6, 7, 8] * 8, {"k": 1}, p)
     except Exception as e:  # noqa
         err = "%s: %s" % (type(e).__name__, e)
     held = [n for n, dsc in desc.items() if not lock_free(dsc._lock)]
